@@ -36,9 +36,22 @@ def _compare(ra, rb):
     return game.conj(parts)
 
 
-def unit(model, sizes, ranks):
+def unit(model, sizes, ranks, generic=False):
+    """generic: sizes = (1,)*n, every team has a symbolic number of members (pyvc/teams.py); the float sum
+    over a team is then an opaque function of the team and the member-wise term"""
+    try:
+        return _unit(model, sizes, ranks, generic)
+    except Exception as e:  # noqa: BLE001
+        from ..symrt import UncutLoop
+        if generic and isinstance(e, UncutLoop):
+            return [driver.rec(f"C15/{model}/rate/any-team-size/unbounded-proof@n={len(sizes)},ranks={ranks}", "note", "explorer", 0, kind="note",
+                               fn=f"{model}.rate", shape=f"n={len(sizes)},any-team-size", note=f"not attempted: {e}")]
+        raise
+
+
+def _unit(model, sizes, ranks, generic):
     recs = []
-    shape = f"sizes={sizes},ranks={ranks}"
+    shape = f"sizes={sizes},ranks={ranks}" if not generic else f"n={len(sizes)},any-team-size,ranks={ranks}"
     fn = f"{model}.rate"
 
     def base_rp(md, kind, **kw):
@@ -48,7 +61,15 @@ def unit(model, sizes, ranks):
         return d
 
     # ---- tau-equiv: symbolic t >= 0 of kind int or float, under every limit_sigma combination
-    S = extract.Scratch(model)
+    if generic:
+        from .. import teams as T
+        S = T.scratch(model)
+
+        def mk_teams(ctx, S_, sizes_, tag=""):
+            return [T.SymTeam(ctx, S_.rating_cls, i, tag=tag) for i in range(len(sizes_))]
+    else:
+        S = extract.Scratch(model)
+        mk_teams = game.mk_teams
     game.stub_gauss_uninterpreted(S)
     for (la, lb) in ((False, None), (True, None), (False, True), (True, False)):
         ctx = Ctx("U")
@@ -64,15 +85,15 @@ def unit(model, sizes, ranks):
             mA, _ = game.mk_model(ctx, S, limit_sigma=la)
             mB, _ = game.mk_model(ctx, S, tau=t, limit_sigma=eff)
             kw = {} if lb is None else {"limit_sigma": lb}
-            ra = call(mA.rate, game.mk_teams(ctx, S, sizes), ranks=list(ranks) if ranks else None, tau=t, **kw)
-            rb = call(mB.rate, game.mk_teams(ctx, S, sizes), ranks=list(ranks) if ranks else None)
+            ra = call(mA.rate, mk_teams(ctx, S, sizes), ranks=list(ranks) if ranks else None, tau=t, **kw)
+            rb = call(mB.rate, mk_teams(ctx, S, sizes), ranks=list(ranks) if ranks else None)
             rp = lambda md: base_rp(md, "c15_tau", t=enc_model(md, "t"), a=la, b=lb)
             tag = f"[model_limit={la},call_limit={lb}]"
             ctx.oblige(f"C15/{model}/rate/tau-equiv{tag}@{shape}", _compare(ra, rb), meta={"replay": rp, "fn": fn, "shape": shape})
             if la is False and lb is None:
                 # canary: "the per-call tau is ignored"
                 mC, _ = game.mk_model(ctx, S)
-                rc = call(mC.rate, game.mk_teams(ctx, S, sizes), ranks=list(ranks) if ranks else None)
+                rc = call(mC.rate, mk_teams(ctx, S, sizes), ranks=list(ranks) if ranks else None)
                 ctx.oblige(f"C15/{model}/rate/tau-equiv/canary@{shape}", _compare(ra, rc), kind="canary",
                            meta={"replay": lambda md: base_rp(md, "c15_tau", t=enc_model(md, "t"), clause="canary"), "fn": fn, "shape": shape})
         explore(ctx, run_tau)
@@ -84,8 +105,8 @@ def unit(model, sizes, ranks):
     def run_tau_none(ctx):
         mA, pa = game.mk_model(ctx, S)
         mB, _ = game.mk_model(ctx, S)
-        ra = call(mA.rate, game.mk_teams(ctx, S, sizes), ranks=list(ranks) if ranks else None, tau=None)
-        rb = call(mB.rate, game.mk_teams(ctx, S, sizes), ranks=list(ranks) if ranks else None, tau=pa["tau"])
+        ra = call(mA.rate, mk_teams(ctx, S, sizes), ranks=list(ranks) if ranks else None, tau=None)
+        rb = call(mB.rate, mk_teams(ctx, S, sizes), ranks=list(ranks) if ranks else None, tau=pa["tau"])
         rp = lambda md: base_rp(md, "c15_tau", t=enc_model(md, "m_tau", KFLOAT))
         ctx.oblige(f"C15/{model}/rate/tau-omitted@{shape}", _compare(ra, rb), meta={"replay": rp, "fn": fn, "shape": shape})
     explore(ctx, run_tau_none)
@@ -100,15 +121,15 @@ def unit(model, sizes, ranks):
                 mA, _ = game.mk_model(ctx, S, limit_sigma=a)
                 eff = a if b is None else b
                 mB, _ = game.mk_model(ctx, S, limit_sigma=eff)
-                ra = call(mA.rate, game.mk_teams(ctx, S, sizes), ranks=list(ranks) if ranks else None, limit_sigma=b)
-                rb = call(mB.rate, game.mk_teams(ctx, S, sizes), ranks=list(ranks) if ranks else None)
+                ra = call(mA.rate, mk_teams(ctx, S, sizes), ranks=list(ranks) if ranks else None, limit_sigma=b)
+                rb = call(mB.rate, mk_teams(ctx, S, sizes), ranks=list(ranks) if ranks else None)
                 nm = "limit-omitted" if b is None else "limit-equiv"
                 rp = lambda md: base_rp(md, "c15_limit", a=a, b=b)
                 ctx.oblige(f"C15/{model}/rate/{nm}[model={a},call={b}]@{shape}", _compare(ra, rb),
                            meta={"replay": rp, "fn": fn, "shape": shape})
-                if b is not None and sizes == (1, 1):
+                if b is not None and sizes == (1, 1) and not generic:
                     mC, _ = game.mk_model(ctx, S, limit_sigma=not eff)
-                    rc = call(mC.rate, game.mk_teams(ctx, S, sizes), ranks=list(ranks) if ranks else None)
+                    rc = call(mC.rate, mk_teams(ctx, S, sizes), ranks=list(ranks) if ranks else None)
                     ctx.oblige(f"C15/{model}/rate/limit-equiv/canary[model={a},call={b}]@{shape}", _compare(ra, rc), kind="canary",
                                meta={"replay": lambda md: base_rp(md, "c15_limit", a=a, b=b, clause="canary"), "fn": fn, "shape": shape})
             explore(ctx, run_lim)
@@ -116,7 +137,7 @@ def unit(model, sizes, ranks):
 
     # ---- two-call form: omitting the argument uses the model's own setting,
     # whatever an earlier call passed
-    if sizes == (1, 1):
+    if sizes == (1, 1) and not generic:
         for a in (False, True):
             for b, use_t in ((False, False), (True, False), (None, True)):
                 ctx = Ctx("U")
@@ -131,9 +152,9 @@ def unit(model, sizes, ranks):
                         t = ctx.number("t", kinds=(KINT, KFLOAT))
                         ctx.assume(t.t >= 0)
                         kw["tau"] = t
-                    r1 = call(mA.rate, game.mk_teams(ctx, S, (1, 1), tag="g1"), **kw)
-                    ra = call(mA.rate, game.mk_teams(ctx, S, sizes))
-                    rb = call(mB.rate, game.mk_teams(ctx, S, sizes))
+                    r1 = call(mA.rate, mk_teams(ctx, S, (1, 1), tag="g1"), **kw)
+                    ra = call(mA.rate, mk_teams(ctx, S, sizes))
+                    rb = call(mB.rate, mk_teams(ctx, S, sizes))
 
                     def rp(md):
                         d = base_rp(md, "c15_seq", a=a, b=b, game1=game.enc_game(md, (1, 1), "g1"))
@@ -149,7 +170,8 @@ def unit(model, sizes, ranks):
 
 def units(tier):
     shapes = SHAPES_QUICK if tier == "quick" else SHAPES_THOROUGH
-    return [("unit", (m, s, r)) for m in extract.MODELS for (s, r) in shapes]
+    return [("unit", (m, s, r)) for m in extract.MODELS for (s, r) in shapes] + \
+        [("unit", (m, (1,) * n, r, True)) for m in extract.MODELS for (n, r) in ([(2, [2, 1])] if tier == "quick" else [(2, [2, 1]), (2, None), (3, [1, 1, 2])])]
 
 
 def main(tier, seed):
